@@ -193,22 +193,46 @@ func genConsts(r *Repo) (string, error) {
 	fmt.Fprintf(&sb, "def methodRegexp : String := %s\n", leanStr(regex))
 
 	// the linear/binary child search switch in getEdge and updateEdge
-	thr := func(fn string) (int64, error) {
-		fd := r.FuncDecl("node.go", "node", fn)
-		if fd == nil {
-			return 0, fmt.Errorf("node.%s not found", fn)
+	// (the switch may sit in the function itself or in a helper method of node it calls - e.g. an `edgeIndex` shared by both)
+	var thrIn func(fd *ast.FuncDecl, depth int) int64
+	thrIn = func(fd *ast.FuncDecl, depth int) int64 {
+		if fd == nil || fd.Body == nil || depth > 2 {
+			return -1
 		}
 		var got int64 = -1
 		ast.Inspect(fd.Body, func(n ast.Node) bool {
-			if is, ok := n.(*ast.IfStmt); ok && got < 0 {
-				if be, ok := is.Cond.(*ast.BinaryExpr); ok && be.Op == token.LEQ && strings.Contains(r.Text(be.X), "len(n.children)") {
-					if v, err := evalInt(be.Y, env, 0); err == nil {
-						got = v
+			if got >= 0 {
+				return false
+			}
+			switch x := n.(type) {
+			case *ast.IfStmt:
+				if be, ok := x.Cond.(*ast.BinaryExpr); ok && be.Op == token.LEQ {
+					t := r.Text(be.X)
+					if strings.HasPrefix(t, "len(") && strings.HasSuffix(t, ".children)") {
+						if v, err := evalInt(be.Y, env, 0); err == nil {
+							got = v
+						}
+					}
+				}
+			case *ast.CallExpr:
+				if sel, ok := x.Fun.(*ast.SelectorExpr); ok {
+					if _, ok := sel.X.(*ast.Ident); ok {
+						if v := thrIn(r.FuncDecl("node.go", "node", sel.Sel.Name), depth+1); v >= 0 {
+							got = v
+						}
 					}
 				}
 			}
 			return true
 		})
+		return got
+	}
+	thr := func(fn string) (int64, error) {
+		fd := r.FuncDecl("node.go", "node", fn)
+		if fd == nil {
+			return 0, fmt.Errorf("node.%s not found", fn)
+		}
+		got := thrIn(fd, 0)
 		if got < 0 {
 			return 0, fmt.Errorf("threshold in node.%s not found", fn)
 		}
